@@ -1,9 +1,12 @@
 #!/bin/bash
 # usage: seed_checks.sh <seed-dir-name> <check ids...>   -- apply the seeded patch to /repo, run our checks, undo it
+# (/repo is used exclusively: the whole thing runs under /tmp/repo.lock, like lib/seed_confirm.sh's /repo phase)
 NAME=$1; shift
 OUT=/verif/seeded/$NAME
 [ -f $OUT/patch.diff ] || { echo "no patch for $NAME"; exit 2; }
 cd /verif
+(
+flock 9
 git -C /repo status --short | grep -q . && { echo "/repo is dirty, refusing"; exit 2; }
 git -C /repo apply $OUT/patch.diff || { echo "PATCH DOES NOT APPLY to /repo"; exit 4; }
 for C in "$@"; do
@@ -13,3 +16,4 @@ for C in "$@"; do
 done
 git -C /repo checkout -- .
 git -C /repo status --short | head -3
+) 9>/tmp/repo.lock
